@@ -31,9 +31,18 @@ class Failure:
         self.exact = exact
         self.site = site
 
+    def cls(self):
+        """input class of the failing assignment: sign of every input (the granularity at which
+        known findings are recorded)"""
+        out = []
+        for k, v in self.assignment.items():
+            f = Fraction(v)
+            out.append(f"{k}{'+' if f > 0 else '-' if f < 0 else '0'}")
+        return " ".join(out)
+
     def to_json(self):
         return dict(kind=self.kind, label=self.label, detail=self.detail[:600], site=self.site,
-                    assignment=self.assignment, exact=self.exact)
+                    assignment=self.assignment, exact=self.exact, cls=self.cls())
 
 
 def _isnan(a):
